@@ -58,6 +58,10 @@ def kvs(s):
     return dict(t.split("=", 1) for t in s.split(" ") if "=" in t)
 
 
+class NarrowTableaux(Exception):
+    pass
+
+
 # ----------------------------------------------------------------------------
 # maps with a fixed operation order
 
@@ -186,9 +190,9 @@ def tol_form(ctx, tol, what):
 
 
 def int_form(ctx, k, what):
-    f = ctx.rng.choice(["py", "py", "np.int64", "np.int32", "np.intp", "np.uint8" if 0 <= k < 128 else "np.int64", "0-d"])
+    f = ctx.rng.choice(["py", "py", "np.int64", "np.int32", "np.intp", "np.uint8" if 0 <= k < 256 else "np.int64", "np.int8" if 0 <= k < 128 else "np.uint8" if k < 256 else "np.int32", "0-d"])
     ctx.count("arg-form:%s:%s" % (what, f))
-    return {"py": k, "np.int64": np.int64(k), "np.int32": np.int32(k), "np.intp": np.intp(k), "np.uint8": np.uint8(k % 256),
+    return {"py": k, "np.int64": np.int64(k), "np.int32": np.int32(k), "np.intp": np.intp(k), "np.uint8": np.uint8(k % 256), "np.int8": np.int8(k % 128),
             "0-d": np.array(k)}[f]
 
 
@@ -481,6 +485,23 @@ def run(ctx):
     mt_mod = importlib.import_module("quantecon.game_theory.mclennan_tourky")
     from quantecon.game_theory import NormalFormGame, Player
 
+    # guard (whole run): the Numba kernel that fills the imitation-game tableaux must only ever see m x (2m+1) views
+    orig_init_ig = cfp._initialize_tableaux_ig
+
+    def guard_init_ig(X, Y, tableaux, bases):
+        m = X.shape[0]
+        if tableaux[0].shape != (m, 2 * m + 1) or tableaux[1].shape != (m, 2 * m + 1):
+            raise NarrowTableaux("_initialize_tableaux_ig called for m=%d on tableau views of shape %s" % (m, tableaux[0].shape))
+        return orig_init_ig(X, Y, tableaux, bases)
+    cfp._initialize_tableaux_ig = guard_init_ig
+    try:
+        _run(ctx, qe, cfp, mt_mod, NormalFormGame, Player)
+    finally:
+        cfp._initialize_tableaux_ig = orig_init_ig
+
+
+def _run(ctx, qe, cfp, mt_mod, NormalFormGame, Player):
+    import importlib
     cases = []
     ctx.rule = ("affine maps with dyadic coefficients (contractions of known modulus, isometries, expansive maps, "
                 "affine maps projected on a box = Brouwer maps), dimension 1-4, tolerances 1e-2..1e-8 and max_iter "
@@ -591,7 +612,12 @@ def run(ctx):
         with Recorder() as rec, warnings.catch_warnings(record=True) as wl:
             warnings.simplefilter("always")
             a_tol, a_mi, a_vb, a_ps, tol = arg_forms(ctx, tol, mi)
-            v = qe.compute_fixed_point(T, v_form(ctx, T, v0), a_tol, a_mi, a_vb, a_ps, "imitation_game")
+            try:
+                v = qe.compute_fixed_point(T, v_form(ctx, T, v0), a_tol, a_mi, a_vb, a_ps, "imitation_game")
+            except NarrowTableaux as e:
+                ctx.spec_fail("ig_narrow_tableaux_8bit_max_iter", str(e), {"op": "imitation_game", "A": T.A, "b": T.b, "box": T.box,
+                              "v0": v0, "tol": tol, "max_iter": repr(a_mi)})
+                return
         warned = any(issubclass(w.category, RuntimeWarning) and "max_iter attained" in str(w.message) for w in wl)
         # T is evaluated twice at every visited point (line 191/228 and inside is_approx_fp)
         xs, ys = T.calls_in[::2], T.calls_out[::2]
@@ -700,6 +726,10 @@ def run(ctx):
         try:
             with Recorder() as rec:
                 NE, res = mt_mod.mclennan_tourky(g, init, eps_arg, mi_arg, full_output=True)
+        except NarrowTableaux as e:
+            ctx.spec_fail("ig_narrow_tableaux_8bit_max_iter", str(e), {"op": "mclennan_tourky", "nums": nums,
+                          "payoff_arrays": [P.tolist() for P in pays], "init": init_repr(init), "epsilon": eps, "max_iter": repr(mi_arg)})
+            continue
         finally:
             mt_mod._best_response_selection, mt_mod._is_epsilon_nash = orig_brs, orig_eps
         xs, ys = visited, images
@@ -1208,38 +1238,32 @@ def run(ctx):
             keep("polym_lcp_solver call %d" % step, list(NE), rp)
             rejudge("polym_lcp_solver call %d" % step)
 
-    # unlisted finding (counted, not raised, until it is listed in known_findings.txt): max_iter given as an 8-bit NumPy
-    # integer >= 128 keeps buff_size = min(max_iter, 2**8) an 8-bit integer, `buff_size*2+1` wraps around, the tableaux
-    # are allocated too narrow and _initialize_tableaux_ig is called on views narrower than 2m+1 columns once m is large
-    # enough (Numba does not check bounds).  Probed without letting the kernel run on such views.
-    class _Narrow(Exception):
-        pass
-    orig_init_ig = cfp._initialize_tableaux_ig
-
-    def guard_init_ig(X, Y, tableaux, bases):
-        m = X.shape[0]
-        if tableaux[0].shape[1] != 2 * m + 1 or tableaux[1].shape[1] != 2 * m + 1:
-            raise _Narrow("m=%d, tableau views of shape %s" % (m, tableaux[0].shape))
-        return orig_init_ig(X, Y, tableaux, bases)
-    cfp._initialize_tableaux_ig = guard_init_ig
+    # regression case for the fixed finding ig_narrow_tableaux_8bit_max_iter (fix beafa6b: buff_size = min(int(max_iter), ...)):
+    # an 8-bit max_iter >= 128 used to make `buff_size*2+1` wrap around and the tableaux too narrow; long runs with
+    # np.uint8 max_iter go through both entry points, judged like every other run (the guard below has been active for
+    # the whole harness run: _initialize_tableaux_ig never executes on views that are not m x (2m+1))
+    Tm = AffMap([[0, -1.5, 0], [1.5, 0, 0.25], [0.5, 0.5, -1]], [1, 0.2, 0.4], (0.0, 1.0))
+    rp8 = {"op": "compute_fixed_point", "A": Tm.A, "b": Tm.b, "box": Tm.box, "v0": [.25, .25, .25], "tol": 1e-9,
+           "max_iter": "np.uint8(200)", "method": "imitation_game"}
     try:
-        Tm = AffMap([[0, -1.5, 0], [1.5, 0, 0.25], [0.5, 0.5, -1]], [1, 0.2, 0.4], (0.0, 1.0))
+        with warnings.catch_warnings(record=True) as wl:
+            warnings.simplefilter("always")
+            r8 = qe.compute_fixed_point(Tm, np.array([.25, .25, .25]), 1e-9, np.uint8(200), 1, 5, "imitation_game")
+        w8 = any("max_iter attained" in str(w.message) for w in wl)
         with warnings.catch_warnings():
             warnings.simplefilter("ignore")
-            try:
-                qe.compute_fixed_point(Tm, np.array([.25, .25, .25]), 1e-9, np.uint8(200), 1, 5, "imitation_game")
-                ctx.count("probe:uint8-max_iter:ok")
-            except _Narrow as e:
-                key = "ig_narrow_tableaux_8bit_max_iter"
-                if key in ctx.known:
-                    ctx.spec_fail(key, str(e), {"max_iter": "np.uint8(200)"})
-                else:
-                    ctx.count("unlisted-finding:" + key)
-                    ctx.extra["unlisted_finding_" + key] = (
-                        "compute_fixed_point(T, [.25,.25,.25], 1e-9, np.uint8(200), method='imitation_game') with "
-                        "T(x)=clip(Ax+b,0,1), A=[[0,-1.5,0],[1.5,0,.25],[.5,.5,-1]], b=[1,.2,.4]: " + str(e))
-    finally:
-        cfp._initialize_tableaux_ig = orig_init_ig
+            Tm2 = AffMap(Tm.A, Tm.b, Tm.box)
+            rref = qe.compute_fixed_point(Tm2, np.array([.25, .25, .25]), 1e-9, 200, 1, 5, "imitation_game")
+        its8 = len(Tm.calls_in) // 2
+        rq8 = F(r8)
+        resid8 = max(abs(a - c) for a, c in zip(Tm.exact(rq8), rq8))
+        ctx.count("regression:8bit-max_iter:iterations", its8)
+        if np.asarray(r8).tobytes() != np.asarray(rref).tobytes() or its8 > 200 or (w8 and its8 != 200) or \
+                (not w8 and resid8 > Fraction(1e-9) * (1 + SLACK) + Fraction(1, 10 ** 13)):
+            ctx.spec_fail("ig_narrow_tableaux_8bit_max_iter", "max_iter=np.uint8(200) and max_iter=200 give different answers "
+                          "/ the accuracy contract fails (%d iterations)" % its8, rp8)
+    except NarrowTableaux as e:
+        ctx.spec_fail("ig_narrow_tableaux_8bit_max_iter", str(e), rp8)
 
     # init forms outside the documented domain ("an integer or an array of floats"): 0-d arrays, bools, float scalars.
     # What the code does with them is part of the model (`flattenInitForms`) and compared exactly; no verdict of the
